@@ -1,0 +1,80 @@
+//go:build verif
+
+// Contracts for gzv (contract-based deductive verification, /verif). Comment-only file.
+package mapping
+
+// ---------------------------------------------------------------------------------------------
+// C08 validation layer. The range validator is verified in exact IEEE-754 (comparisons only), so NaN and infinities are
+// covered; option sets rebuilt on the way keep every declared constraint; the shared, cached option objects are never written.
+// ---------------------------------------------------------------------------------------------
+
+// inRange(fv, nr): respects open/closed ends; false for NaN
+//@ spec inRange(fv float64, nr *numberRange) bool = ite(nr.leftInclude, fv >= nr.left, fv > nr.left) && ite(nr.rightInclude, fv <= nr.right, fv < nr.right)
+
+//@ func validateNumberRange
+//@   property C08
+//@   float ieee
+//@   requires implies(nr != nil, !isNaN(nr.left) && !isNaN(nr.right))
+//@   ensures  iff(result == nil, nr == nil || inRange(fv, nr))
+//@   ensures  implies(result != nil, result == errNumberRange)
+//@   modifies nothing
+
+//@ func toFloat64
+//@   trusted
+//@   pure
+//@   float ieee
+//@   modifies nothing
+
+//@ func validateValueRange
+//@   property C08
+//@   float ieee
+//@   requires implies(opts != nil && opts.Range != nil, !isNaN(opts.Range.left) && !isNaN(opts.Range.right))
+//@   ensures  implies(result == nil, opts == nil || opts.Range == nil || inRange(toFloat64(mapValue), opts.Range))
+//@   modifies nothing
+
+// getters
+//@ func (o *fieldOptionsWithContext) optional
+//@   property C08
+//@   pure
+//@   flag reads_heap
+//@   ensures result == (o != nil && o.Optional)
+//@   modifies nothing
+//@ func (o *fieldOptions) optionalDep
+//@   property C08
+//@   pure
+//@   flag reads_heap
+//@   ensures result == ite(o == nil, "", o.OptionalDep)
+//@   modifies nothing
+
+//@ extern func (v Valuer) Value
+//@   pure
+//@   modifies nothing
+
+// resolving optional=dep / optional=!dep keeps Range, Options, Default, FromString, Inherit and EnvVar
+//@ func (o *fieldOptions) toOptionsWithContext
+//@   property C08
+//@   results res, err
+//@   requires o != nil
+//@   ensures  implies(err == nil, res != nil && res.Range == o.Range && sameSlice(res.Options, o.Options) && res.Default == o.Default && res.FromString == o.FromString && res.Inherit == o.Inherit && res.EnvVar == o.EnvVar)
+//@   ensures  implies(err == nil && !o.Optional, !res.Optional)
+//@   ensures  implies(err == nil && o.Optional && len(o.OptionalDep) == 0, res.Optional)
+//@   modifies nothing
+//@   allocates
+
+//@ func parseKeyAndOptions
+//@   trusted
+//@   results key, options, err
+//@   ensures implies(err != nil, options == nil)
+//@   modifies nothing
+//@   allocates
+
+// the canonical-key copy keeps every constraint and never writes the cached option object it copies from
+//@ func (u *Unmarshaler) parseOptionsWithContext
+//@   property C08
+//@   flag callbacks_noheap nopanic:canonicalKey
+//@   results key, opts, err
+//@   ghost at after parseKeyAndOptions#0: P = ret1
+//@   ensures  implies(err == nil && opts != nil, P != nil && opts.Range == P.Range && sameSlice(opts.Options, P.Options) && opts.Default == P.Default && opts.FromString == P.FromString && opts.Inherit == P.Inherit && opts.EnvVar == P.EnvVar)
+//@   ensures  implies(err == nil && opts != nil && u.opts.fillDefault, opts.Optional == P.Optional)
+//@   modifies calls(u.opts.canonicalKey)
+//@   allocates
